@@ -190,12 +190,18 @@ def job_misc(_):
                                            "what": f"{fam}({', '.join(ps)}).mgf_exists_at({t}) = {got}, the moment generating function {'exists' if want else 'does not exist'} there",
                                            "replay": {"family": fam, "params": ps, "t": t}})
                 if not want and t > 0:
-                    try:
-                        r = FunctionalAssignment.get_func_moment(dd, {"Exp": t})
-                        out["records"].append({"kind": "violation", "key": f"get_exp_moment|{fam}({', '.join(ps)})|{t}", "tag": "existence",
-                                               "what": f"E(exp({t} X)) for X ~ {fam}({', '.join(ps)}) does not exist but is answered with {r}", "replay": {"family": fam, "params": ps, "t": t}})
-                    except FunctionalAssignmentException:
-                        pass
+                    # E(X^a exp(tX)) exists exactly where E(exp(tX)) does: every such request must be rejected, also the mixed ones
+                    for powers in ({"Exp": t}, {"Id": 1, "Exp": t}, {"Id": 2, "Exp": t}):
+                        out["checked"] += 1
+                        try:
+                            r = FunctionalAssignment.get_func_moment(dd, dict(powers))
+                            out["records"].append({"kind": "violation", "key": f"get_exp_moment|{fam}({', '.join(ps)})|{sorted(powers.items())}", "tag": "existence",
+                                                   "what": f"E(X^{powers.get('Id', 0)} exp({t} X)) for X ~ {fam}({', '.join(ps)}) does not exist but is answered with {r}",
+                                                   "replay": {"family": fam, "params": ps, "powers": powers}})
+                        except FunctionalAssignmentException:
+                            pass
+                        except Exception as e:  # noqa
+                            out["records"].append({"kind": "inconclusive", "tag": f"exists:{fam}{ps}:{powers}", "why": f"{type(e).__name__}: {e}"[:100]})
     # constants: Sin/Cos/Exp of a number
     for func, num, k in itertools.product(("Sin", "Cos", "Exp"), ("1", "2", "3", "-1", "0"), (1, 2, 3)):
         try:
